@@ -10,7 +10,10 @@ def decode(string):
   return unsafe_decode(string)
 
 def validate_encoded(string):
-  if not re.match(r"^[!-)+-<>-~][!-~]*[+-](,[!-)+-<>-~][!-~]*[+-])*\Z", string):
+  # the list is split at the commas (see unsafe_decode):
+  # each element shall be a name followed by an orientation
+  if not all(re.match(r"^[!-)+-<>-~][!-~]*[+-]\Z", elem)
+             for elem in string.split(",")):
     raise gfapy.FormatError(
       "{} is not a valid list of GFA1 segment names ".format(repr(string))+
       "and orientations\n"+
@@ -20,6 +23,8 @@ def validate_encoded(string):
       "NameOrient[,NameOrient...])")
 
 def validate_decoded(iterable):
+  if len(iterable) == 0:
+    raise gfapy.FormatError("the list of GFA1 segment names is empty")
   for elem in iterable:
     elem = gfapy.OrientedLine(elem)
     elem.validate()
